@@ -160,28 +160,16 @@ Col(st, p, i, t) ==
 \* colorize (:305-333)
 St0b(linelen, maxlines, lb) == [out |-> <<>>, cp |-> 0, ln |-> 1, lb |-> lb, exc |-> "none", LL |-> linelen, ML |-> maxlines]
 St0(linelen, maxlines) == St0b(linelen, maxlines, lbok)
-\* _trim_result (:382-406) shortens the last nodes of the result IN PLACE (result[-1][-1] = Text(data[:-trim])).
-\* LINEWRAP is ONE node object, a class attribute shared by every representation made in the process: the first wrap
-\* sign that is trimmed costs one character and empties that shared node; from then on every other wrap sign - later in
-\* this loop (costing nothing), earlier in this text, and in every later representation - is empty.
-\* Repaired (FixShared): the node is copied before it is edited.
-FixShared == "shared-linewrap-mutated" \in Fixed
-Front(s) == SubSeq(s, 1, Len(s) - 1)
-RECURSIVE Trim(_, _, _)
-Trim(s, budget, emptied) ==
-   IF budget = 0 \/ s = <<>> THEN [s |-> s, emptied |-> emptied]
-   ELSE IF Last(s) = "WRAP" /\ ~FixShared THEN Trim(Front(s), IF emptied THEN budget ELSE budget - 1, TRUE)
-   ELSE Trim(Front(s), budget - 1, emptied)
+\* _trim_result (:382-406) drops the last 3 characters of the result.  The nodes it shortens are copied first
+\* (a366be8): LINEWRAP, ELLIPSIS and UNKNOWN_REPR are class-level node objects shared by every representation made in the
+\* process and must come out of a truncation unchanged - see HistoryIndependent.
 ColorizeWith(t, linelen, maxlines, lb) ==
    LET r == Col(St0b(linelen, maxlines, lb), E!Root, 1, t)
-   IN IF r.exc = "none" THEN [text |-> r.out, complete |-> TRUE, emptied |-> FALSE]
-      ELSE IF lb THEN [text |-> r.out \o <<"NL", "ELL">>, complete |-> FALSE, emptied |-> FALSE]
+   IN IF r.exc = "none" THEN [text |-> r.out, complete |-> TRUE]
+      ELSE IF lb THEN [text |-> r.out \o <<"NL", "ELL">>, complete |-> FALSE]
       ELSE LET o1 == IF r.out # <<>> /\ Last(r.out) = "WRAP" THEN PyTo(r.out, -1) ELSE r.out
-               tr == Trim(o1, 3, FALSE)                                                                  \* _trim_result(.., 3)
-               left == IF tr.emptied THEN SelectSeq(tr.s, LAMBDA x : x # "WRAP") ELSE tr.s
-           IN [text |-> left \o <<"ELL">>, complete |-> FALSE, emptied |-> tr.emptied]
+           IN [text |-> PyTo(o1, -3) \o <<"ELL">>, complete |-> FALSE]                                   \* _trim_result(.., 3)
 Colorize(t) == ColorizeWith(t, ll, ml, lbok)
-Corrupts(t, linelen, maxlines) == ColorizeWith(t, linelen, maxlines, FALSE).emptied
 
 \* ------------------------------------------------------------------ the contract
 RECURSIVE Unwrap(_), Canon(_), SkipSp(_)
@@ -229,7 +217,7 @@ Init == /\ wrapok = TRUE
         /\ step = (IF Source = "hist" THEN 1 ELSE 0)
         /\ InitCase
 Render1 == /\ step = 1 /\ step' = 2
-           /\ wrapok' = (FixShared \/ ~Corrupts(Data[ti], ll, ml))
+           /\ wrapok' = wrapok          \* a truncation edits copies: the shared wrap sign keeps its text
            /\ UNCHANGED <<ti, ll, ml, lbok, col, lens>>
 Probe   == /\ step = 2 /\ step' = 3 /\ UNCHANGED <<ti, ll, ml, lbok, col, lens, wrapok>>
 Next == Source = "hist" /\ (Render1 \/ Probe)
